@@ -258,4 +258,239 @@ theorem ctlCost_le {D} (c : Cfg D) (s : St D) (op : Nat) :
     | (have := scanElseSteps_le (c.code s.current) ((c.code s.current).size + 1) s.pc 1; omega)
     | (have := scanDefSteps_le (c.code s.current) ((c.code s.current).size + 1) s.pc; omega)
 
+/-! ### the errors of the control operations are the named control errors, never an `Err.data` code -/
+
+/-- not a data-opcode error code -/
+def CtlErr (e : Err) : Prop := ∀ n, e ≠ .data n
+
+theorem ctlErr_lit {e : Err} (h : ∀ n, e ≠ .data n := by intro n; decide) : CtlErr e := h
+
+theorem pop_ctlErr {ped : Bool} {vs : List Int} {e : Err} (h : pop ped vs = .error e) : CtlErr e := by
+  unfold pop at h
+  split at h
+  · cases h
+  · split at h
+    · rw [← Except.error.inj h]; intro n hn; cases hn
+    · cases h
+
+theorem doJump_ctlErr {D} {c : Cfg D} {s : St D} {t : Bool} {e : Err} (h : doJump c s t = .error e) : CtlErr e := by
+  unfold doJump at h
+  simp only [] at h
+  split at h
+  · rename_i e1 hp; rw [← Except.error.inj h]; exact pop_ctlErr hp
+  · iterate 4 (all_goals try split at h)
+    all_goals first | (cases h; done) | (rw [← Except.error.inj h]; intro n hn; cases hn)
+
+theorem enter_ctlErr {D} {s : St D} {d : Def} {n : Nat} {e : Err} (h : enter s d n = .error e) : CtlErr e := by
+  unfold enter at h
+  split at h
+  · cases h
+  · rw [← Except.error.inj h]; intro n hn; cases hn
+
+theorem doCall_ctlErr {D} {s : St D} {f : Bool} {n : Nat} {k : Int} {e : Err} (h : doCall s f n k = .error e) :
+    CtlErr e := by
+  unfold doCall at h
+  split at h
+  · cases h
+  · split at h
+    · rw [← Except.error.inj h]; intro n hn; split at hn <;> cases hn
+    · exact enter_ctlErr h
+
+theorem leave_ctlErr {D} {s : St D} {e : Err} (h : leave s = .error e) : CtlErr e := by
+  unfold leave at h
+  split at h
+  · rw [← Except.error.inj h]; intro n hn; cases hn
+  · split at h <;> cases h
+
+theorem scanIf_ctlErr (code : Array Nat) : ∀ (fuel pc d : Nat) (e : Err), scanIf code fuel pc d = some (.error e) →
+    CtlErr e := by
+  intro fuel
+  induction fuel with
+  | zero => intro pc d e h; simp [scanIf] at h
+  | succ n ih =>
+    intro pc d e h
+    unfold scanIf at h
+    split at h
+    · rw [← Except.error.inj (Option.some.inj h)]; intro n hn; cases hn
+    · rw [← Except.error.inj (Option.some.inj h)]; intro n hn; cases hn
+    · iterate 6 (all_goals try split at h)
+      all_goals first | exact ih _ _ _ h | (simp at h)
+
+theorem scanElse_ctlErr (code : Array Nat) : ∀ (fuel pc d : Nat) (e : Err), scanElse code fuel pc d = some (.error e) →
+    CtlErr e := by
+  intro fuel
+  induction fuel with
+  | zero => intro pc d e h; simp [scanElse] at h
+  | succ n ih =>
+    intro pc d e h
+    unfold scanElse at h
+    split at h
+    · rw [← Except.error.inj (Option.some.inj h)]; intro n hn; cases hn
+    · rw [← Except.error.inj (Option.some.inj h)]; intro n hn; cases hn
+    · iterate 6 (all_goals try split at h)
+      all_goals first | exact ih _ _ _ h | (simp at h)
+
+theorem scanDef_ctlErr (code : Array Nat) : ∀ (fuel pc : Nat) (e : Err), scanDef code fuel pc = some (.error e) →
+    CtlErr e := by
+  intro fuel
+  induction fuel with
+  | zero => intro pc e h; simp [scanDef] at h
+  | succ n ih =>
+    intro pc e h
+    unfold scanDef at h
+    split at h
+    · rw [← Except.error.inj (Option.some.inj h)]; intro n hn; cases hn
+    · rw [← Except.error.inj (Option.some.inj h)]; intro n hn; cases hn
+    · iterate 3 (all_goals try split at h)
+      all_goals first
+        | exact ih _ _ h
+        | (rw [← Except.error.inj (Option.some.inj h)]; intro n hn; cases hn)
+        | (simp at h)
+
+theorem allocate_ctlErr {defs : List Def} {key : Int} {e : Err} (h : allocate defs key = .error e) : CtlErr e := by
+  unfold allocate at h
+  simp only [] at h
+  split at h
+  · rw [← Except.error.inj h]; intro n hn; cases hn
+  · split at h
+    · cases h
+    · rw [← Except.error.inj h]; intro n hn; cases hn
+
+theorem doDef_ctlErr {D} {c : Cfg D} {s : St D} {f : Bool} {k : Int} {e : Err}
+    (h : doDef c s f k = some (.error e)) : CtlErr e := by
+  unfold doDef at h
+  simp only [] at h
+  split at h
+  · rw [← Except.error.inj (Option.some.inj h)]; intro n hn; cases hn
+  · split at h
+    · rename_i e1 ha; rw [← Except.error.inj (Option.some.inj h)]; exact allocate_ctlErr ha
+    · iterate 5 (all_goals try split at h)
+      all_goals first
+        | (cases h; done)
+        | (cases Option.some.inj h; done)
+        | (rw [← Except.error.inj (Option.some.inj h)]; exact scanDef_ctlErr _ _ _ _ (by assumption))
+        | (rw [← Except.error.inj (Option.some.inj h)]; intro n hn; cases hn)
+
+theorem opIf_ctlErr {D} {c : Cfg D} {s : St D} {e : Err} (h : opIf c s = some (.error e)) : CtlErr e := by
+  unfold opIf at h
+  simp only [] at h
+  split at h
+  · rename_i e1 hp; rw [← Except.error.inj (Option.some.inj h)]; exact pop_ctlErr hp
+  · split at h
+    · split at h
+      · cases h
+      · rename_i e1 hs; rw [← Except.error.inj (Option.some.inj h)]; exact scanIf_ctlErr _ _ _ _ _ hs
+      · cases Option.some.inj h
+    · cases Option.some.inj h
+
+theorem opElse_ctlErr {D} {c : Cfg D} {s : St D} {e : Err} (h : opElse c s = some (.error e)) : CtlErr e := by
+  unfold opElse at h
+  simp only [] at h
+  split at h
+  · cases h
+  · rename_i e1 hs; rw [← Except.error.inj (Option.some.inj h)]; exact scanElse_ctlErr _ _ _ _ _ hs
+  · cases Option.some.inj h
+
+theorem opJr_ctlErr {D} {c : Cfg D} {s : St D} {t : Bool} {e : Err} (h : opJr c s t = .error e) : CtlErr e := by
+  unfold opJr at h
+  split at h
+  · rename_i e1 hp; rw [← Except.error.inj h]; exact pop_ctlErr hp
+  · exact doJump_ctlErr h
+
+theorem opCall_ctlErr {D} {c : Cfg D} {s : St D} {e : Err} (h : opCall c s = .error e) : CtlErr e := by
+  unfold opCall at h
+  split at h
+  · rename_i e1 hp; rw [← Except.error.inj h]; exact pop_ctlErr hp
+  · exact doCall_ctlErr h
+
+theorem opLoopcall_ctlErr {D} {c : Cfg D} {s : St D} {e : Err} (h : opLoopcall c s = .error e) : CtlErr e := by
+  unfold opLoopcall at h
+  simp only [] at h
+  split at h
+  · rename_i e1 hp; rw [← Except.error.inj h]; exact pop_ctlErr hp
+  · split at h
+    · rename_i e1 hp; rw [← Except.error.inj h]; exact pop_ctlErr hp
+    · split at h
+      · split at h
+        · rw [← Except.error.inj h]; intro n hn; cases hn
+        · exact doCall_ctlErr h
+      · cases h
+
+theorem opDef_ctlErr {D} {c : Cfg D} {s : St D} {f : Bool} {e : Err} (h : opDef c s f = some (.error e)) :
+    CtlErr e := by
+  unfold opDef at h
+  split at h
+  · rename_i e1 hp; rw [← Except.error.inj (Option.some.inj h)]; exact pop_ctlErr hp
+  · exact doDef_ctlErr h
+
+/-- **where the error of a dispatch comes from**: a control error, or the error the data semantics returned for this
+    opcode on the current (value stack, data state) -/
+theorem dispatch_err {D} {c : Cfg D} {s : St D} {op : Nat} {ops : List Nat} {e : Err}
+    (h : dispatch c s op ops = some (.error e)) : CtlErr e ∨ c.sem op ops (s.vs, s.data) = .error e := by
+  unfold dispatch at h
+  by_cases h1 : op = 0x58
+  · rw [if_pos h1] at h; exact Or.inl (opIf_ctlErr h)
+  rw [if_neg h1] at h
+  by_cases h2 : op = 0x1B
+  · rw [if_pos h2] at h; exact Or.inl (opElse_ctlErr h)
+  rw [if_neg h2] at h
+  by_cases h3 : op = 0x59
+  · rw [if_pos h3] at h; cases Option.some.inj h
+  rw [if_neg h3] at h
+  by_cases h4 : op = 0x1C
+  · rw [if_pos h4] at h; exact Or.inl (doJump_ctlErr (Option.some.inj h))
+  rw [if_neg h4] at h
+  by_cases h5 : op = 0x78
+  · rw [if_pos h5] at h; exact Or.inl (opJr_ctlErr (Option.some.inj h))
+  rw [if_neg h5] at h
+  by_cases h6 : op = 0x79
+  · rw [if_pos h6] at h; exact Or.inl (opJr_ctlErr (Option.some.inj h))
+  rw [if_neg h6] at h
+  by_cases h7 : op = 0x2B
+  · rw [if_pos h7] at h; exact Or.inl (opCall_ctlErr (Option.some.inj h))
+  rw [if_neg h7] at h
+  by_cases h8 : op = 0x2A
+  · rw [if_pos h8] at h; exact Or.inl (opLoopcall_ctlErr (Option.some.inj h))
+  rw [if_neg h8] at h
+  by_cases h9 : op = 0x2C
+  · rw [if_pos h9] at h; exact Or.inl (opDef_ctlErr h)
+  rw [if_neg h9] at h
+  by_cases h10 : op = 0x89
+  · rw [if_pos h10] at h; exact Or.inl (opDef_ctlErr h)
+  rw [if_neg h10] at h
+  by_cases h11 : op = 0x2D
+  · rw [if_pos h11] at h; exact Or.inl (leave_ctlErr (Option.some.inj h))
+  rw [if_neg h11] at h
+  by_cases h12 : isUnknownFor c.axisCount op = true
+  · rw [if_pos h12] at h; exact Or.inl (doCall_ctlErr (Option.some.inj h))
+  rw [if_neg h12] at h
+  right
+  have h := Option.some.inj h
+  unfold opData at h
+  split at h
+  · rename_i e1 hs; rw [← Except.error.inj h]; exact hs
+  · cases h
+
+/-- a decoded opcode is a byte when the program is a byte string -/
+theorem decode_op_lt {code : Array Nat} {pc op ipc next : Nat} {ops : List Nat}
+    (hb : ∀ i (h : i < code.size), code[i] < 256) (h : decode code pc = .ins op ops ipc next) : op < 256 := by
+  unfold decode at h
+  split at h
+  · cases h
+  · rename_i o ho
+    split at h
+    · cases h
+    · simp only [] at h
+      split at h
+      · have h0 := Decoded.ins.inj h
+        rw [← h0.1]
+        have hlt : pc < code.size := by
+          by_cases hlt : pc < code.size
+          · exact hlt
+          · rw [Array.getElem?_eq_none (by omega)] at ho; cases ho
+        have := hb pc hlt
+        rw [Array.getElem?_eq_getElem hlt] at ho
+        rw [← Option.some.inj ho]; exact this
+      · cases h
+
 end FontVerif.InterpRunLemmas
